@@ -7,7 +7,7 @@ From Verif Require Import Model.Val Gen.Src_Clockwork Model.Clockwork Proofs.Clo
 Open Scope Z_scope.
 
 Definition ex_wd : world := [(1, [mkS 1 2 10 [(1, 0, 1)]; mkS 2 4 15 [(1, 0, 1)]])].
-Definition ex_pools : list pool := [mkP 1 [mkW 1 [(1, 11, 2)] [(1, 0)]]].
+Definition ex_pools : list pool := [mkP 1 [mkW 1 [(1, 11, 2)] [(1, 0)] []]].
 Definition ex_t (i d : Z) : task := mkT i 1 d.
 Definition ex_invs : list invocation :=
   [mkInv 0 [ex_t 1 30; ex_t 2 40; ex_t 3 5] ex_pools None;
@@ -57,7 +57,7 @@ Proof. eexists. eexists. split; vm_compute; reflexivity. Qed.
    one through a specific id no longer "fits" a worker holding a single unit, so schedule() returns (nothing is placed,
    the request stays queued) instead of raising *)
 Definition rf_wd : world := [(1, [mkS 1 1 10 [(1, 0, 1); (1, 11, 1)]])].
-Definition rf_inv : invocation := mkInv 0 [mkT 1 1 100] [mkP 1 [mkW 1 [(1, 11, 1); (9, 19, 7)] [(1, 0)]]] None.
+Definition rf_inv : invocation := mkInv 0 [mkT 1 1 100] [mkP 1 [mkW 1 [(1, 11, 1); (9, 19, 7)] [(1, 0)] []]] None.
 Example competing_requests_return :
   exists st', cw_schedule rf_wd false rf_inv (cw_start rf_wd [1]) = Ok (st', mkD [] [] []) /\
               obs_state st' = L [L [I 1; L [L [I 1; L [I 1]]]; L [L [I 1; I 1]]]].
